@@ -1,6 +1,120 @@
 import YaegiVerif.Common.Sexp
-/- Line-protocol front end for C09 (glue). Placeholder until the property's model exists. -/
+import YaegiVerif.Model.RunId
+import YaegiVerif.Expected.C09
+import YaegiVerif.Generated.C09
+/- Line-protocol front end for C09 (glue, not a proof obligation).
+
+   run B K ENTRY…      → y=<outcome> g=<outcome>
+     B      budget of fresh operations after the cancellation (a goroutine that wants more is parked: `R`)
+     K      number: the cancellation happens when operation K (counted over all goroutines, under the
+            newest-first policy) has passed its guard and is about to execute; `quiet`: when nothing moves any more
+     ENTRY  (r OP…) an entry of Execute's run list executed on the root frame, (f OP…) in a new frame
+     OP     s | t | m | (c SITE OP…) | (g SITE OP…) | (b KIND CANC)      SITE = c | w | l | e (closure of an earlier evaluation)    KIND = recv | recv2 | send | range | select
+   outcome = n<ops before the cancellation>;<ret>;<per goroutine that ever executed an operation, in creation order>
+             per goroutine: i<in-flight operations 0/1>f<fresh operations>t<host calls after the cancellation><E|S|R>
+             (E exited, S still blocked, R still wants to run)
+   y= is the machine with the facts extracted from the source, g= the machine with the ideal facts (the property). -/
 namespace YaegiVerif.Driver.C09
-open YaegiVerif
-def handle (_args : List Sexp) : String := "unimplemented"
+open YaegiVerif YaegiVerif.RunId
+
+def parseKind : String → Option BlkKind
+  | "recv" => some .recv | "recv2" => some .recv2 | "send" => some .send
+  | "range" => some .range | "select" => some .select | _ => none
+
+def parseSite : String → Option Site
+  | "c" => some .call | "w" => some .wrapper | "l" => some .closure | "e" => some .earlier | _ => none
+
+partial def parseOps : List Sexp → Option Prog
+  | [] => some .done
+  | .atom "s" :: rest => (parseOps rest).map .step
+  | .atom "t" :: rest => (parseOps rest).map .tick
+  | .atom "m" :: rest => (parseOps rest).map .mkclosure
+  | .list (.atom "c" :: .atom s :: body) :: rest => do
+    let st ← parseSite s
+    let b ← parseOps body
+    let r ← parseOps rest
+    some (.call st b r)
+  | .list (.atom "g" :: .atom s :: body) :: rest => do
+    let st ← parseSite s
+    let b ← parseOps body
+    let r ← parseOps rest
+    some (.spawn st b r)
+  | .list [.atom "b", .atom k, c] :: rest => do
+    let kk ← parseKind k
+    let cc ← c.bool?
+    let r ← parseOps rest
+    some (.block kk cc r)
+  | _ => none
+
+def parseEntry : Sexp → Option Entry
+  | .list (.atom "r" :: ops) => (parseOps ops).map (fun p => { root := true, prog := p })
+  | .list (.atom "f" :: ops) => (parseOps ops).map (fun p => { root := false, prog := p })
+  | _ => none
+
+def newestAllowed (gs : List G) (inflight : List Nat) (freshLeft : Nat) : Option Nat :=
+  let rec go (l : List G) (i : Nat) (best : Option Nat) : Option Nat :=
+    match l with
+    | [] => best
+    | g :: rest => go rest (i + 1) (if g.armed && (inflight.contains i || freshLeft > 0) then some i else best)
+  go gs 0 none
+
+/-- after the cancellation: in-flight operations always execute, fresh ones while the budget lasts -/
+def post (F : RunIdFacts) (fs : Nat) : Nat → St → List Nat → Nat → St
+  | 0, σ, _, _ => settleAll F σ fs
+  | fuel + 1, σ, inflight, freshLeft =>
+    let σ1 := settleAll F σ fs
+    match newestAllowed σ1.gs inflight freshLeft with
+    | none => σ1
+    | some i =>
+      if inflight.contains i then post F fs fuel (stepC F σ1 (.run i)) (inflight.erase i) freshLeft
+      else post F fs fuel (stepC F σ1 (.run i)) inflight (freshLeft - 1)
+
+def entriesSize (es : List Entry) : Nat := es.foldl (fun n e => n + e.prog.size + 1) 0
+
+def statusOf (σ : St) (g : G) : String :=
+  if g.blocked.isSome then "S"
+  else if g.armed then "R"
+  else if g.stack.isEmpty && (!g.main || σ.runList.isEmpty) then "E"
+  else "R"
+
+def outcome (F : RunIdFacts) (budget : Nat) (k : Option Nat) (entries : List Entry) : String :=
+  let fs := entriesSize entries + 8
+  let σ0 := start F 0 0 entries
+  let pre := match k with
+    | some k => runPolicy F fs (k - 1) σ0
+    | none => runPolicy F fs (entriesSize entries + 1) σ0
+  let σ1 := pre.1
+  -- with a numeric K the K-th operation must exist
+  if k.isSome && (pickNewest σ1.gs).isNone then "short"
+  else if k.isNone && (pickNewest σ1.gs).isSome then "notquiet"
+  else
+    let inflight := (List.range σ1.gs.length).filter (fun i => armedOf σ1 i)
+    let σ2 := stepC F σ1 .stop
+    let σ3 := post F fs (inflight.length + budget + 1) σ2 inflight budget
+    let ret := match σ3.ret with | some .ctxErr => "ctx" | some .value => "val" | none => "none"
+    let per := (List.range σ3.gs.length).filterMap (fun i =>
+      match σ3.gs[i]? with
+      | none => none
+      | some g =>
+        if g.ops == 0 then none
+        else
+          let postOps := g.ops - opsOf σ1 i
+          let infl := if inflight.contains i && postOps > 0 then 1 else 0
+          some s!"i{infl}f{postOps - infl}t{g.ticks - ticksOf σ1 i}{statusOf σ3 g}")
+    s!"n{pre.2};{ret};{",".intercalate per}"
+
+def handle (args : List Sexp) : String :=
+  match args with
+  | .atom "run" :: b :: k :: entries =>
+    (match b.nat?, entries.mapM parseEntry with
+     | some budget, some es =>
+       let kk : Option (Option Nat) := match k with
+         | .atom "quiet" => some none
+         | _ => (k.nat?).map some
+       (match kk with
+        | some kv => s!"y={outcome Generated.C09.facts budget kv es} g={outcome Expected.C09.ideal budget kv es}"
+        | none => "bad-op")
+     | _, _ => "bad-op")
+  | _ => "bad-op"
+
 end YaegiVerif.Driver.C09
